@@ -45,6 +45,10 @@ var smallNs = []int{1, 2, 7, 8, 9, 15, 16, 17, 63, 64, 65, 127, 128, 129, 511, 5
 func drawTrial(t *rt.Tape, r *simrand.DRBG, exhaustiveIdx int) *trial {
 	tr := &trial{}
 	tr.N = smallNs[t.Choose(rt.SGen, len(smallNs))]
+	if t.Choose(rt.SGen, 12) == 0 {
+		// many chunks in one call (anything the sender keeps in flight per chunk wraps around)
+		tr.N = []int{2047, 2048, 2049, 2560, 3000, 4096, 4097, 5121}[t.Choose(rt.SGen, 8)]
+	}
 	tr.Choices = make([]bool, tr.N)
 	switch t.Choose(rt.SGen, 4) {
 	case 0:
